@@ -515,6 +515,9 @@ func (h *H) sizeHint(depth int) int {
 	case 2:
 		return 9 + h.Intn(4) // around the cap-10 growth step
 	case 3:
+		if depth > 1 {
+			return 1 + h.Intn(4) // large collections only near the top: sizes multiply with nesting
+		}
 		if h.Thorough() {
 			return 100 + h.Intn(200)
 		}
